@@ -360,8 +360,9 @@ fn op_strategy() -> impl Strategy<Value = Op> {
 }
 
 fn start_strategy() -> impl Strategy<Value = Start> {
-    // exclusion switch for the open V3/V4 finding: 4 of 5 random starts are V1/V2, the rest are canaries
-    (prop_oneof![4 => 1u8..=2, 1 => 3u8..=4], any::<bool>(), any::<bool>(), proptest::collection::vec(0u8..8, 0..5)).prop_map(|(version, listfile, attrs, mut initial)| {
+    // V3/V4 in-place modification was repaired in /repo (415f49c..8620b6d): all four versions are
+    // drawn uniformly again (while the finding was open 4 of 5 random starts were V1/V2)
+    (1u8..=4, any::<bool>(), any::<bool>(), proptest::collection::vec(0u8..8, 0..5)).prop_map(|(version, listfile, attrs, mut initial)| {
         initial.sort();
         initial.dedup();
         Start { version, listfile, attrs, initial }
